@@ -75,6 +75,10 @@ LOWERABLE = {
     _O + "map_or_else": {"on": "opt", "arms": {"Some": ("call", 2), "None": ("call", 1)}},
     _O + "unwrap_or_else": {"on": "opt", "arms": {"Some": ("value", lambda p, a: p), "None": ("call", 1)}},
     _O + "and_then": {"on": "opt", "arms": {"Some": ("call", 1), "None": ("value", lambda p, a: _NONE)}},
+    _O + "is_some_and": {"on": "opt", "arms": {"Some": ("call", 1), "None": ("value", lambda p, a: ("const", False))}},
+    _O + "is_none_or": {"on": "opt", "arms": {"Some": ("call", 1), "None": ("value", lambda p, a: ("const", True))}},
+    _R + "is_ok_and": {"on": "res", "arms": {"Ok": ("call", 1), "Err": ("value", lambda p, a: ("const", False))}},
+    _R + "is_err_and": {"on": "res", "arms": {"Ok": ("value", lambda p, a: ("const", False)), "Err": ("call", 1)}},
     _R + "map": {"on": "res", "arms": {"Ok": ("wrapcall", 1, _ok), "Err": ("value", lambda p, a: _err(p))}},
     _R + "and_then": {"on": "res", "arms": {"Ok": ("call", 1), "Err": ("value", lambda p, a: _err(p))}},
     _R + "unwrap_or_else": {"on": "res", "arms": {"Ok": ("value", lambda p, a: p), "Err": ("call", 1)}},
